@@ -264,29 +264,32 @@ theorem isOddInt_eq (s : Bool) (m : Nat) (e : Int) (hm : m < 2^53) :
 theorem hexUpper_facts : ∀ n, n < 16 → hexUpper n ≠ 117 ∧ hexUpper n ≠ 37 ∧ isHex (hexUpper n) = true ∧ unhex (hexUpper n) = n ∧ hexUpper n = Spec.hexChar n ∧ Spec.hexDigit? (hexUpper n) = some n := by
   decide
 
-theorem unescape_pct (b : Nat) (hb : b < 256) (rest : List Nat) :
-    unescapeRunes (pct b ++ rest) = b :: unescapeRunes rest := by
+theorem unescapeAux_pct (k b : Nat) (hb : b < 256) (rest : List Nat) :
+    unescapeAux (k + 1) (pct b ++ rest) = b :: unescapeAux k rest := by
   have h1 := hexUpper_facts (b / 16) (by omega)
   have h2 := hexUpper_facts (b % 16) (by omega)
   simp only [pct, List.cons_append, List.nil_append]
-  rw [unescapeRunes.eq_2 _ _ _ (by intro _ _ _ _ h; exact absurd h h1.1)]
+  rw [unescapeAux.eq_4 _ _ _ _ (by intro _ _ _ _ h; exact absurd h h1.1)]
   simp only [h1.2.2.1, h2.2.2.1, h1.2.2.2.1, h2.2.2.2.1, and_self, if_true]
   congr 1; omega
 
-theorem unescape_pctU (u : Nat) (hu : u < 65536) (rest : List Nat) :
-    unescapeRunes (pctU u ++ rest) = decode1 u :: unescapeRunes rest := by
+theorem unescapeAux_pctU (k u : Nat) (hu : u < 65536) (rest : List Nat) :
+    unescapeAux (k + 1) (pctU u ++ rest) = u :: unescapeAux k rest := by
   have h1 := hexUpper_facts (u / 4096) (by omega)
   have h2 := hexUpper_facts ((u / 256) % 16) (by omega)
   have h3 := hexUpper_facts ((u / 16) % 16) (by omega)
   have h4 := hexUpper_facts (u % 16) (by omega)
   simp only [pctU, List.cons_append, List.nil_append]
-  rw [unescapeRunes.eq_1]
+  rw [unescapeAux.eq_3]
   simp only [h1.2.2.1, h2.2.2.1, h3.2.2.1, h4.2.2.1, h1.2.2.2.1, h2.2.2.2.1, h3.2.2.2.1, h4.2.2.2.1, and_self, if_true]
-  congr 2; omega
+  congr 1; omega
 
-theorem unescape_plain (c : Nat) (hc : c ≠ 37) (rest : List Nat) :
-    unescapeRunes (c :: rest) = c :: unescapeRunes rest := by
-  rw [unescapeRunes.eq_3]
+theorem unescapeAux_plain (k c : Nat) (hc : c ≠ 37) (hlt : c < 128) (rest : List Nat) :
+    unescapeAux (k + 1) (c :: rest) = c :: unescapeAux k rest := by
+  rw [unescapeAux.eq_5]
+  · have hn : ¬((0xD800 ≤ c ∧ c ≤ 0xDFFF) ∨ c > 0x10FFFF) := by omega
+    simp [decodeRune, hlt, utf16Encode, if_neg hn]
+    rw [if_pos (by omega)]; rfl
   · intro a b c d r h _; exact hc h
   · intro a b r h _; exact hc h
 
@@ -341,55 +344,104 @@ theorem encodeRune_shape (r : Nat) (hr : Scalar r) :
 theorem shouldEscape_high (c : Nat) (h : 128 ≤ c) : shouldEscape c = true := by
   simp [shouldEscape, isAlnum]; omega
 
-theorem escapeRune_bmp (r : Nat) (hr : BMP r) : escapeRune r = if r < 256 then pct r else pctU r := by
+theorem utf16Encode_one (r : Nat) (hr : Scalar r) :
+    utf16Encode [r] = if r < 0x10000 then [r] else [0xD800 + (r - 0x10000) / 1024, 0xDC00 + (r - 0x10000) % 1024] := by
   obtain ⟨h1, h2⟩ := hr
   have hn : ¬((0xD800 ≤ r ∧ r ≤ 0xDFFF) ∨ r > 0x10FFFF) := by omega
-  simp [escapeRune, utf16Encode, if_neg hn, h1]
+  simp [utf16Encode, if_neg hn]
 
-theorem decode1_bmp (r : Nat) (hr : BMP r) : decode1 r = r := by
-  obtain ⟨h1, h2⟩ := hr
-  simp [decode1]; omega
+theorem utf16Encode_cons (r : Nat) (rs : List Nat) : utf16Encode (r :: rs) = utf16Encode [r] ++ utf16Encode rs := by
+  simp [utf16Encode]
 
-theorem escape_unescape_runes (rs : List Nat) (h : ∀ r ∈ rs, BMP r) :
-    ∀ n, (encodeRunes rs).length ≤ n → unescapeRunes (escapeAux n (encodeRunes rs)) = rs := by
+theorem utf16Decode_cons_bmp (u : Nat) (hu : ¬(0xD800 ≤ u ∧ u ≤ 0xDFFF)) (rest : List Nat) :
+    utf16Decode (u :: rest) = u :: utf16Decode rest := by
+  cases rest with
+  | nil => simp [utf16Decode]; omega
+  | cons v rest' =>
+    rw [utf16Decode]
+    rw [if_neg (by omega), if_neg (by omega)]
+
+theorem utf16Decode_encode (rs : List Nat) (h : ∀ r ∈ rs, Scalar r) : utf16Decode (utf16Encode rs) = rs := by
   induction rs with
-  | nil => intro n _; cases n <;> simp [encodeRunes, escapeAux, unescapeRunes]
+  | nil => simp [utf16Encode, utf16Decode]
   | cons r rs ih =>
-    intro n hn
-    have hb : BMP r := h r (by simp)
-    have hs : Scalar r := ⟨by have := hb.1; omega, hb.2⟩
+    have hs := h r (by simp)
+    have ih' := ih (fun x hx => h x (by simp [hx]))
+    rw [utf16Encode_cons, utf16Encode_one r hs]
+    obtain ⟨h1, h2⟩ := hs
+    by_cases hb : r < 0x10000
+    · simp only [hb, if_true, List.cons_append, List.nil_append]
+      rw [utf16Decode_cons_bmp r h2, ih']
+    · simp only [hb, if_false, List.cons_append, List.nil_append]
+      rw [utf16Decode, if_pos (by omega), ih']
+      congr 1; omega
+
+theorem escape_unescape_units (rs : List Nat) (h : ∀ r ∈ rs, Scalar r) :
+    ∀ m n, (encodeRunes rs).length ≤ m → (escapeAux m (encodeRunes rs)).length ≤ n →
+      unescapeAux n (escapeAux m (encodeRunes rs)) = utf16Encode rs := by
+  induction rs with
+  | nil => intro m n _ _; cases m <;> cases n <;> simp [encodeRunes, escapeAux, unescapeAux, utf16Encode]
+  | cons r rs ih =>
+    intro m n hm hn
+    have hs : Scalar r := h r (by simp)
     have ih' := ih (fun x hx => h x (by simp [hx]))
     have henc : encodeRunes (r :: rs) = encodeRune r ++ encodeRunes rs := by simp [encodeRunes]
-    rw [henc] at hn ⊢
+    rw [henc] at hm hn ⊢
     obtain ⟨c, t, hct, hlow, hhigh⟩ := encodeRune_shape r hs
     have hdec := decodeRune_encodeRune r hs (encodeRunes rs)
-    rw [hct] at hn hdec ⊢
-    cases n with
-    | zero => simp at hn
+    rw [hct] at hm hn hdec ⊢
+    rw [utf16Encode_cons]
+    cases m with
+    | zero => simp at hm
     | succ k =>
-      simp only [List.cons_append, escapeAux]
+      have hk : (encodeRunes rs).length ≤ k := by simp at hm; omega
+      simp only [List.cons_append, escapeAux] at hn ⊢
       by_cases hse : shouldEscape c = true
-      · simp only [hse, if_true, List.cons_append] at hdec ⊢
-        rw [hdec]
-        simp only [List.drop_succ_cons, List.length_cons]
+      · simp only [hse, if_true, List.cons_append] at hdec hn ⊢
+        rw [hdec] at hn ⊢
+        simp only [List.drop_succ_cons, List.length_cons] at hn ⊢
         have hdrop : (t ++ encodeRunes rs).drop t.length = encodeRunes rs := by simp
-        rw [hdrop, escapeRune_bmp r hb]
-        have hk : (encodeRunes rs).length ≤ k := by simp at hn; omega
-        by_cases h256 : r < 256
-        · simp only [h256, if_true]; rw [unescape_pct r h256, ih' k hk]
-        · simp only [h256, if_false]; rw [unescape_pctU r hb.1, decode1_bmp r hb, ih' k hk]
+        rw [hdrop] at hn ⊢
+        simp only [escapeRune, utf16Encode_one r hs] at hn ⊢
+        obtain ⟨h1, h2⟩ := hs
+        by_cases hb : r < 0x10000
+        · simp only [hb, if_true, List.flatMap_cons, List.flatMap_nil, List.append_nil] at hn ⊢
+          by_cases h256 : r < 256
+          · simp only [h256, if_true] at hn ⊢
+            cases n with
+            | zero => simp [pct] at hn
+            | succ j =>
+              rw [unescapeAux_pct j r h256, ih' k j hk (by simp [pct] at hn; omega)]; rfl
+          · simp only [h256, if_false] at hn ⊢
+            cases n with
+            | zero => simp [pctU] at hn
+            | succ j =>
+              rw [unescapeAux_pctU j r hb, ih' k j hk (by simp [pctU] at hn; omega)]; rfl
+        · simp only [hb, if_false, List.flatMap_cons, List.flatMap_nil, List.append_nil] at hn ⊢
+          have hhi : ¬(0xD800 + (r - 0x10000) / 1024 < 256) := by omega
+          have hlo : ¬(0xDC00 + (r - 0x10000) % 1024 < 256) := by omega
+          simp only [hhi, hlo, if_false, List.append_assoc] at hn ⊢
+          cases n with
+          | zero => simp [pctU] at hn
+          | succ j =>
+            cases j with
+            | zero => simp [pctU] at hn
+            | succ i =>
+              rw [unescapeAux_pctU (i + 1) _ (by omega), unescapeAux_pctU i _ (by omega),
+                ih' k i hk (by simp [pctU] at hn; omega)]; rfl
       · have hlt : r < 128 := by
           by_cases hlt : r < 128
           · exact hlt
           · exact absurd (shouldEscape_high c (hhigh (by omega))) hse
         obtain ⟨hc, ht⟩ := hlow hlt
         subst hc; subst ht
-        simp only [hse, Bool.false_eq_true, if_false, List.nil_append]
+        simp only [hse, Bool.false_eq_true, if_false, List.nil_append] at hn ⊢
         have hne : c ≠ 37 := by intro h37; subst h37; exact hse (by decide)
-        have hk : (encodeRunes rs).length ≤ k := by simp at hn; omega
-        rw [unescape_plain c hne, ih' k hk]
-
-
+        rw [utf16Encode_one c hs, if_pos (by omega)]
+        cases n with
+        | zero => simp at hn
+        | succ j =>
+          rw [unescapeAux_plain j c hne hlt, ih' k j hk (by simp at hn; omega)]; rfl
 theorem pct_eq (b : Nat) (hb : b < 256) : pct b = Spec.pctOctet b := by
   have h1 := hexUpper_facts (b / 16) (by omega)
   have h2 := hexUpper_facts (b % 16) (by omega)
